@@ -1009,6 +1009,12 @@ class Exec:
             if name in mi.imports:        # re-export
                 return self.import_value(mi.imports[name])
             return ModV(dotted)
+        from . import lib
+        canon = CANON.get(root, root) + dotted[len(root):]
+        if canon in lib.HANDLERS:
+            return FuncV('lib', canon)
+        if canon in lib.CONSTS:
+            return lib.CONSTS[canon]
         return ModV(dotted)
 
     def ev_Attribute(self, node, st):
@@ -1037,6 +1043,10 @@ class Exec:
                 if attr in LOGGER_METHODS:
                     return FuncV('logger', attr)
                 ci, fn = source.find_method(cell.cls, attr)
+                if fn is None and ('call:' + attr) in self.unit.abstract:
+                    # a method the class leaves to its subclasses, given an assumed (abstract) contract by the unit
+                    h = self.unit.abstract['call:' + attr]
+                    return FuncV('pyfunc', lambda ex, st2, a, k, n, h=h, base=base: h(ex, st2, [base] + list(a), k, n))
                 if fn is None:
                     raise EngineError('object of class %s has no attribute %s (line %d); declare it in the contract'
                                       % (cell.cls, attr, getattr(node, 'lineno', 0)))
@@ -1803,6 +1813,12 @@ class Exec:
         # 1-D integer / boolean array index on a 1-D array (permutations, masks via lib.where)
         if len(plan) == 1 and a.ndim == 1:
             idx = st.get(plan[0][1])
+            if isinstance(idx, Arr) and idx.kind == 'bool' and idx.ndim == 1:
+                from . import lib
+                if not _same(idx.shape[0], a.shape[0]):
+                    self.oblige('safe.shape', st, as_term(idx.shape[0]) == as_term(a.shape[0]), node)
+                sel = lib.mask_indices(self, st, idx)
+                return st.alloc(self.c, Arr(sel.shape, lambda ix, a=a, sel=sel: a.elem((sel.elem(ix),)), a.kind))
             if isinstance(idx, PyList):
                 idx = self.list_to_arr(idx, st)
             if isinstance(idx, Arr) and idx.kind == 'int' and idx.ndim == 1:
@@ -1991,6 +2007,8 @@ class Exec:
             raise Unsupported('call of %r at line %d' % (f, getattr(node, 'lineno', 0)))
         if f.kind == 'logger':
             return None
+        if f.kind == 'pyfunc':           # a callable value produced by a library model (e.g. an interp1d object)
+            return f.target(self, st, args, kwargs, node)
         if f.kind == 'lib':
             h = lib.HANDLERS.get(f.target)
             if h is None:
@@ -2256,7 +2274,7 @@ class _Fork(Exception):
 _MISSING = object()
 BUILTINS = {'len', 'range', 'min', 'max', 'abs', 'int', 'float', 'sum', 'zip', 'enumerate', 'isinstance', 'list',
             'tuple', 'bool', 'str', 'sorted', 'hasattr', 'round', 'any', 'all', 'dict', 'getattr', 'type', 'map',
-            'reversed', 'set', 'callable', 'repr', 'pow'}
+            'reversed', 'set', 'callable', 'repr', 'pow', 'slice'}
 CANON = {'np': 'numpy', 'numpy': 'numpy', 'math': 'math', 'scipy': 'scipy'}
 CMP = {ast.Lt: lambda a, b: a < b, ast.LtE: lambda a, b: a <= b, ast.Gt: lambda a, b: a > b,
        ast.GtE: lambda a, b: a >= b, ast.Eq: lambda a, b: a == b, ast.NotEq: lambda a, b: a != b}
